@@ -4,6 +4,8 @@ import (
 	"context"
 	"fmt"
 	"path/filepath"
+	"regexp"
+	"strconv"
 	"strings"
 	"sync"
 	"time"
@@ -27,6 +29,8 @@ func obsOf(s progress.Snapshot) []int64 {
 	o = append(o, figs(s.SuccessfulIterationDurationsForPeriod)...)
 	return append(o, int64(s.DroppedIterationCount))
 }
+
+var c17line = regexp.MustCompile(`\((\d+)/s\)\s+avg: ([^,]+), min: ([^,]+), max: (\S+)`)
 
 type c17seq struct {
 	Ev [][]any `json:"ev"`
@@ -94,8 +98,23 @@ func runC17SeqResult(c *ctx, nops int, maxd int, pSnap int) c17seq {
 		switch {
 		case x < pSnap:
 			res.SnapshotProgress(time.Second)
-			tr.Ev = append(tr.Ev, []any{"s", obsOf(res.Snapshot())})
-			_ = res.Progress().Render()
+			obs := obsOf(res.Snapshot())
+			// the period figures as the progress LINE states them (what the user sees): "(<count per second>/s)   avg: .., min: ..,
+			// max: .." - with a one-second period the rate is the period's count
+			if m := c17line.FindStringSubmatch(res.Progress().Render()); m != nil {
+				cnt, e0 := strconv.ParseInt(m[1], 10, 64)
+				avg, e1 := time.ParseDuration(m[2])
+				mn, e2 := time.ParseDuration(m[3])
+				mx, e3 := time.ParseDuration(m[4])
+				if e0 == nil && e1 == nil && e2 == nil && e3 == nil {
+					obs[8], obs[9], obs[10], obs[11] = cnt, int64(avg), int64(mn), int64(mx)
+				} else {
+					obs[8] = -1 // a line that cannot be read is not the period's figures either
+				}
+			} else {
+				obs[8] = -1
+			}
+			tr.Ev = append(tr.Ev, []any{"s", obs})
 			_ = res.HasDroppedIterations()
 		case x < pSnap+3:
 			res.GetTotals()
